@@ -164,6 +164,34 @@ func checkC12(p *Prog, r *Report) {
 			r.unresolved(rule, "file-creating calls in "+w.Name())
 		}
 	}
+	// whatever is restored replaces what is in the way: ensureRetrieveReady removes the old output on every success path
+	if err0 := p.Fn("cache", "dirCache.ensureRetrieveReady"); err0 == nil {
+		r.unresolved("E5.retrieve-clears-the-way", "cache.dirCache.ensureRetrieveReady")
+	} else {
+		isRm := func(j ssa.Instruction) bool {
+			c, ok := j.(*ssa.Call)
+			return ok && isCallTo(c, "fs.RemoveAll", "os.RemoveAll", "os.Remove")
+		}
+		n, bad := 0, 0
+		idx := err0.Signature.Results().Len() - 1
+		for _, rc := range returnCases(err0, idx) {
+			if !isNilConst(rc.Vals[idx]) {
+				// forwarded error of a call: fine only if that call is the removal itself
+				if c, ok := rc.Vals[idx].(*ssa.Call); ok && isRm(c) {
+					n++
+					continue
+				}
+				if k, isNil := errKnown(rc.Facts, []ssa.Value{rc.Vals[idx]}); k && !isNil {
+					continue
+				}
+			}
+			n++
+			if existsPath(err0, nil, rc.Ret, isRm) {
+				bad++
+			}
+		}
+		r.check(n > 0 && bad == 0, "E5.retrieve-clears-the-way", "ensureRetrieveReady removes the old output on every success path", p.pos(err0.Pos()), fnName(err0), itoa(n)+" success path(s), each through RemoveAll", "ensureRetrieveReady can succeed without removing what is already at the output path (e.g. for outputs in a sub-directory): a restored file is written over the old one without truncation (the tail of a longer file survives) and a restored directory is merged into the old tree, so what is in plz-out after a cache hit is a mixture of two states")
+	}
 	// the staging area starts empty: what an earlier store that died left under the temp name must not be merged into
 	{
 		rl := "E5.staging-starts-empty"
